@@ -6,15 +6,16 @@ from ..symexec import SymExec, variant_name
 from ..facts import AnchorMissing, op_place
 from . import C18
 
-LEVEL = ("decides the wiring of reification: the wrapped propagator runs only on the true edge of the "
-         "reification literal, with reified reasons, and its conflicts get the literal (R1); the wrapper "
-         "forwards every Propagator hook the engine raises (R2, computed FORWARD-ALL); the cached "
-         "inconsistency is cleared on every synchronise (R3); every implied_by hands the literal (clausal "
-         "constraints: its negation) to everything it posts, incl. through closures (R4); reify posts "
-         "c←r and ¬c←¬r (R5); negation is an involution on constraint types (R6); eager reasons are "
-         "extended with the literal and lazy ones become ReifiedLazy whose evaluation appends it (R7); "
-         "post and implied_by of one constraint post the same sub-constraints (R8). Does not decide "
-         "that wrapped propagators or the negations' arithmetic are right")
+LEVEL = ('decides the wiring of reification: the wrapped propagator runs only on the true edge of the '
+         'reification literal, with reified reasons, and its conflicts get the literal (R1); the '
+         'wrapper forwards every Propagator hook the engine raises (R2, computed FORWARD-ALL); the '
+         'cached inconsistency is cleared on every synchronise (R3); every implied_by hands the '
+         'literal (clausal constraints: its negation) to everything it posts, incl. through closures '
+         '(R4); reify posts c←r and ¬c←¬r (R5); negation is an involution on constraint types (R6); '
+         'eager reasons are extended with the literal and lazy ones become ReifiedLazy whose '
+         'evaluation appends it (R7); post and implied_by of one constraint post the same sub-'
+         'constraints (R8). Predicate negation is the exact complement (R9). Does not decide that '
+         "wrapped propagators or the negations' arithmetic are right")
 TECHNIQUE = "static analysis: dominance / FORWARD-ALL / taint through closures / sibling agreement over rustc MIR"
 
 REIF = "ReifiedPropagator"
